@@ -5,5 +5,7 @@ CONSTANTS
   MethodLists = "singles"
   Exported = {FALSE}
   Tagged = {TRUE, FALSE}
+  Preludes = {"none"}
+  Shadows = {FALSE}
 INVARIANTS TypeOK TwinSame GroupingIrrelevant OutputShape Export
 PROPERTY Terminates
